@@ -13,6 +13,7 @@ RULE = ('generated documents (depth <= 4, up to 3 children per element) over 3 p
         'through seeded set_xmlns_context push/pop sequences; a case = (document, converter, mode, user map); distinct '
         'non-trivial = distinct documents that rebind a prefix already in scope or unset the default namespace')
 RULE += (' ' + 'Data objects: to_objects() then DataElement.encode() must restore every expanded name for documents that use prefixed declarations only, declared or re-bound at any depth (documents with default-namespace declarations: listed finding).')
+RULE += (' ' + 'The JsonML round trip is claimed for every document without a default-namespace declaration (nested and re-bound prefixes included).')
 ASSUMPTIONS = [
     'a key left in {uri}local form is correct by definition',
     'xmlns_processing="none" keeps no namespace information and is excluded',
